@@ -73,6 +73,9 @@ package shachain
 //@   modifies-assumed nothing
 //@   ensures retn(deriveBitTransformations, 1) != nil ==> result1 != nil
 //@   site call deriveBitTransformations: assert arg(0) == e.index && arg(to) == toIndex
+//@   site call Sum256: assert arg(0) == buf
+//@   site call NewHash: assert arg(0) == buf
+//@   site call CloneBytes: assert arg(0) == addr(e.hash)
 //@
 //@ func (store *RevocationStore) AddNextEntry
 //@   props C06
@@ -108,3 +111,34 @@ package shachain
 //@   covers-nonnil-returns nosites except ret(Read), ret(ReadFull)
 //@   site call Read nth 0: assert arg(0) == r && arg(2) == addr(store.lenBuckets)
 //@   site call Read nth 2: assert arg(0) == r && arg(2) == addr(store.index)
+//@
+//@ func NewRevocationProducer
+//@   props C06
+//@   ensures result != nil && result.root != nil && result.root.index == 0
+//@
+//@ func NewRevocationProducerFromBytes
+//@   props C06
+//@   ensures result1 == nil ==> result0 != nil && result0.root != nil && result0.root.index == 0 && retn(NewHash, 1) == nil
+//@   site call NewHash: assert arg(0) == data
+//@
+//@ func (p *RevocationProducer) AtIndex
+//@   props C06
+//@   requires p != nil && v < 1<<48
+//@   ensures result1 == nil ==> retn(derive, 1) == nil && result0 == addr(retn(derive, 0).hash)
+//@   site call derive: assert arg(0) == p.root && arg(1) == ret(newIndex)
+//@   site call newIndex: assert arg(0) == v
+//@
+//@ func (p *RevocationProducer) Encode
+//@   props C06
+//@   requires p != nil
+//@   site call Write: assert arg(1) == sliceof(p.root.hash)
+//@
+//@ func (store *RevocationStore) Encode
+//@   props C06
+//@   requires store != nil && store.lenBuckets <= 48
+//@   loop 0 invariant 0 <= i && i <= store.lenBuckets
+//@   site call binary.Write nth 0: assert arg(0) == w && dyndata(arg(2)) == store.lenBuckets
+//@   site call binary.Write nth 1: assert arg(0) == w && dyndata(arg(2)) == store.buckets[i].index
+//@   site call Write: assert arg(0) == w
+//@   site call binary.Write nth 2: assert arg(0) == w && dyndata(arg(2)) == store.index
+//@   nopanic
